@@ -17,6 +17,8 @@ class VariableBoundMaxPropagator(VariableBoundPropagator):
     def propagate(self):
         # Obtain the max value from the
         max_v = self.max()
+        if max_v is None:
+            return False
   
         range_l = self.target.domain.range_l
         i=len(range_l)-1
